@@ -79,8 +79,13 @@ class ClientConnectionJob(object):
     def denyConnection(self, reason):
         log.warning("client connection was denied: " + reason)
         # return failed handshake
-        self.daemon._handshake(self.csock, denied_reason=reason)
-        self.csock.close()
+        try:
+            self.daemon._handshake(self.csock, denied_reason=reason)
+        except Exception as x:
+            # the refused client may have gone away already; this must never disturb the accept loop
+            log.debug("error while denying connection: %s", x)
+        finally:
+            self.csock.close()
 
 
 class Housekeeper(threading.Thread):
